@@ -21,7 +21,7 @@ ASSUMPTIONS = [
 ]
 
 KIND_OPS = ["const", "query", "add", "alias", "lowest", "draw", "accumulate", "pool", "pool_index", "pool_slice", "matmul_p",
-            "flatten", "roller", "annotate", "setitem", "delitem", "rejected", "query", "query", "query", "select", "shorthand", "shorthand"]
+            "flatten", "roller", "annotate", "setitem", "delitem", "rejected", "query", "query", "query", "select", "shorthand", "shorthand", "retype", "retype", "draw"]
 
 
 def gen_cases(rng, tier):
@@ -35,7 +35,9 @@ def gen_cases(rng, tier):
             if k == "const":
                 ops.append(["const", gens.hist(rng, max_faces=3, frac_p=0.05)])
             elif k == "draw":
-                ops.append(["draw", r[0], r[1], rng.choice([1, 1, 2, 5])])
+                ops.append(["draw", r[0], r[1], rng.choice([1, 1, 2, 5, -1, 0, -2]), rng.choice([None, None, 8, -8]), rng.choice([0, 0, 5])])
+            elif k == "retype":
+                ops.append(["retype", r[0], rng.choice(["float", "Fraction", "bool"])])
             elif k == "matmul_p":
                 ops.append(["matmul_p", rng.choice([0, 1, 2, -1]), r[0]])
             elif k == "pool":
@@ -48,7 +50,7 @@ def gen_cases(rng, tier):
             elif k == "select":
                 ops.append(["select", r[0], rng.choice(["tuple", "list", "iterator", "generator"]), rng.randint(0, 5)])
             elif k == "query":
-                ops.append(["query", rng.choice(["lookup", "lookup", "h_which", "rwc", "order", "eq", "hash", "foreach", "explode", "substitute",
+                ops.append(["query", rng.choice(["lookup", "lookup", "h_which", "rwc", "order", "eq", "eq", "eq", "hash", "foreach", "explode", "substitute",
                                                  "roll", "rroll", "scalar", "cmp", "zero_fill", "zero_fill", "stats", "format", "annotate_eq"]), r[0], r[1]])
             else:
                 ops.append([k] + r[:3])
@@ -104,6 +106,15 @@ def impl_run(case):
                 items = [[gens.q(i), 1] for i in (range(1, n + 1) if n > 0 else range(n, 0))]
                 rop = ["const", items]
                 res = ("H", H(v))
+            elif k == "retype":
+                # the same items with outcomes of another numeric type: a new object that compares equal
+                a = pick("H", op[1])
+                h = pop[a][1]
+                conv = {"float": float, "Fraction": Fraction, "bool": bool}[op[2]]
+                if any(Fraction(o).denominator != 1 for o in h) or (op[2] == "bool" and any(o not in (0, 1) for o in h)):
+                    continue
+                rop = ["const", [[qv(o), c] for o, c in h.items()]]
+                res = ("H", H({conv(o): c for o, c in h.items()}))
             elif k == "add":
                 a, b = pick("H", op[1]), pick("H", op[2])
                 rop = ["add", a, b]
@@ -124,8 +135,13 @@ def impl_run(case):
                 h = pop[a][1]
                 keys = list(h)
                 o = keys[op[2] % len(keys)] if keys else 0
-                rop = ["draw", a, [[qv(o), op[3]]]]
-                res = ("H", h.draw({o: op[3]}))
+                req = [[o, op[3]]]
+                if len(op) > 4 and op[3] <= 0 and op[4] is not None and op[4] not in keys:
+                    # a non-positive amount for an outcome the histogram does not have (adds cards / a zero entry),
+                    # visited BEFORE an existing outcome; with op[5] the same request also over-draws and must fail
+                    req = [[op[4], op[3]]] + ([[o, op[5]]] if op[5] else [])
+                rop = ["draw", a, [[qv(x), n] for x, n in req]]
+                res = ("H", h.draw(dict(req)))
             elif k == "accumulate":
                 a, b = pick("H", op[1]), pick("H", op[2])
                 rop = ["accumulate", a, b]
@@ -247,6 +263,15 @@ def impl_run(case):
                     h.order_stat_for_n_at_pos(2, 0), h.order_stat_for_n_at_pos(3, -1)
                 elif q == "eq":
                     h == h, h != p, p == p
+                    # comparisons, hashing and grouping across ALL histograms and pools alive (equal ones of
+                    # different representation included)
+                    hs = [o for kk, o, _ in pop if kk == "H"]
+                    for x in hs:
+                        for y in hs:
+                            x == y, x != y
+                    len({x for x in hs}), {x: 1 for x in hs}
+                    if hs:
+                        P(*hs[:4]).is_homogeneous(), repr(P(*hs[:4]))
                 elif q == "hash":
                     hash(h), hash(h.lowest_terms()) if False else hash(h)
                 elif q == "foreach":
